@@ -29,6 +29,8 @@ MODULE = "DfolsVerif.Properties.C07"
 BUILD_TARGETS = ["DfolsVerif.Driver.ValidateDrv"]
 MAIN = "ValidateMain.lean"
 def pre_build(ctx):
+    import gen_skeleton
+    gen_skeleton.regenerate_solve_main(ctx)
     import gen_trysites
     gen_trysites.regenerate(ctx)
     import gen_exitsites
@@ -53,7 +55,7 @@ THEOREMS = [
     "Dfols.C07.C07_old_nine_argument_call",
     "Dfols.C07.C07_old_missing_constants",
     "Dfols.C07.C07_src_input_checks",
-    "Dfols.C07.C07_src_input_checks_guarded", "Dfols.C07.C07_src_no_evaluation_before_validation"]
+    "Dfols.C07.C07_src_input_checks_guarded", "Dfols.C07.C07_src_no_evaluation_before_validation", "Dfols.C07.C07_src_solve_returns_result"]
 TRUSTED_EXTRA = [
     "modelled, not verified: arrays are represented by their shapes; rhobeg's default 0.1*max(max|x0|,1) and min(xu-xl) are "
     "computed by the harness with the code's own elementwise NumPy expressions and handed to the model as exact doubles",
